@@ -284,6 +284,50 @@ def ref_sac(name, B, nets, cfg, run, extra):
     return r
 
 
+def sale_step_mismatch(B, emb, opt, emb_after):
+    """One reference optimiser step (clone of the real optimiser state, gradient of the documented SALE loss with a gradient-stopped
+    target, float32 like the routine) from the pre-update clone `emb`, compared with the embedding as it was at the next sample.
+    Only parameter entries whose reference gradient is well above rounding noise are compared (Adam normalises by |g|)."""
+    import jax
+    import jax.numpy as jnp
+    from flax import nnx
+
+    from .probes import params_only
+
+    o, a, o2 = (jnp.asarray(np.asarray(B[k], dtype=np.float32)) for k in ("observation", "action", "next_observation"))
+    before = dict(params_only(emb))
+
+    def loss_fn(m):
+        zsa, _ = m(o, a)
+        zsp = jax.lax.stop_gradient(m.state_embedding(o2))
+        return jnp.mean((zsa - zsp) ** 2)
+
+    grads = nnx.grad(loss_fn)(emb)
+    g = {jax.tree_util.keystr(p): np.asarray(l) for p, l in jax.tree_util.tree_flatten_with_path(nnx.state(grads, nnx.Param) if not isinstance(grads, nnx.State) else grads)[0]}
+    opt.update(emb, grads)
+    ref = dict(params_only(emb))
+    act = dict(params_only(emb_after))
+    for name in ref:
+        if name not in act or name not in before or ref[name].shape != act[name].shape:
+            continue
+        gk = next((v for k, v in g.items() if k == name or k.replace(".value", "") == name.replace(".value", "")), None)
+        step = np.abs(ref[name] - before[name])
+        mask = step > 0
+        if gk is not None and gk.shape == ref[name].shape:
+            mask = mask & (np.abs(gk) > 1e-4)
+        else:
+            continue
+        if not mask.any():
+            continue
+        tol = 0.03 * np.maximum(step, np.abs(act[name] - before[name])) + 1e-6
+        d = np.abs(act[name] - ref[name])
+        badm = mask & (d > tol)
+        if badm.any():
+            i = tuple(int(x) for x in np.argwhere(badm)[0])
+            return (f"{name}{list(i)}", float(act[name][i]), float(ref[name][i]), float(before[name][i]))
+    return None
+
+
 REFS = {"dqn": ref_dqn_family, "nature_dqn": ref_dqn_family, "ddqn": ref_dqn_family, "ddqn_per": ref_dqn_family,
         "ddpg": ref_continuous, "td3": ref_continuous, "td3_lap": ref_continuous}
 NEEDS = {"dqn": ("q",), "nature_dqn": ("q", "q_target"), "ddqn": ("q", "q_target"), "ddqn_per": ("q", "q_target"),
@@ -367,6 +411,8 @@ class RefinementMonitor:
             for key in OPTIONAL.get(self.name, ()):
                 m = comps.get(key)
                 nets[key] = nnx.clone(m) if m is not None else None
+            if self.name == "td7" and comps.get("embedding_opt") is not None:
+                nets["embedding_opt"] = nnx.clone(comps["embedding_opt"])
         self.samples.append({"batch": _batch(b), "nets": nets, "extra": extra, "pos": len(run.log_events), "iter": run.iter_k,
                              "call": len(run.calls)})
 
@@ -491,6 +537,14 @@ class RefinementMonitor:
                         return
                     run.res.probe("value_range_tracks_targets")
                 prev_range = (s["call"], window["min_value"], window["max_value"])
+            if self.name == "td7" and j + 1 < len(self.samples) and self.samples[j + 1]["call"] == s["call"] and self.samples[j + 1]["nets"] is not None \
+                    and s["nets"].get("embedding_opt") is not None:
+                bad = sale_step_mismatch(s["batch"], s["nets"]["embedding"], s["nets"]["embedding_opt"], self.samples[j + 1]["nets"]["embedding"])
+                if bad is not None:
+                    run.V("C03.grad", f"update {j}: after the SALE update parameter {bad[0]} is {bad[1]!r}, one optimiser step along the gradient of mse(zsa(o, a), stop_gradient(zs(o'))) "
+                                      f"gives {bad[2]!r} (before the update {bad[3]!r}): the representation loss is not differentiated against a gradient-stopped target")
+                    return
+                run.res.probe("sale_update_follows_reference_gradient")
             if ref.td is not None:
                 for jj, x in self.flow:
                     if jj == j and x.size == ref.td.size:
